@@ -431,6 +431,33 @@ func c16RoundRun(c *mon.Ctx, id string, ef *gen.EditFile, ri int, rd c16Round, m
 			if !checkKept(q.UID, refmodfile.FmtRequire(q.Path, q.Vers, q.Indirect), flip) {
 				return "", false
 			}
+			// The end-of-line comment of a kept line, read with the documented marker rule (own reading,
+			// not the parser's): apart from the "indirect" marker its text must be what it was, and the
+			// marker must be present exactly when the requirement was requested as indirect.
+			if el := byUID[q.UID]; q.UID != 0 && el != nil && el.TagS {
+				if loc := idx[fmt.Sprintf("s%d", q.UID)]; loc != nil && loc.Line != nil && len(loc.Line.Suffix) > 0 {
+					text := strings.TrimSpace(strings.TrimPrefix(strings.TrimSpace(loc.Line.Suffix[0].Token), "//"))
+					marker, note := false, text
+					switch {
+					case text == "indirect":
+						marker, note = true, ""
+					case strings.HasPrefix(text, "indirect;"):
+						marker, note = true, strings.TrimSpace(strings.TrimPrefix(text, "indirect;"))
+					}
+					c.Eval(1)
+					if note != el.SuffixNote {
+						fail("kept-line-comment-changed", map[string]any{"uid": q.UID, "comment_now": loc.Line.Suffix[0].Token, "note_before": el.SuffixNote})
+						return "", false
+					}
+					if marker != q.Indirect {
+						fail("exact-set:wrong-indirect-marking", map[string]any{"uid": q.UID, "path": q.Path, "requested_indirect": q.Indirect, "comment_now": loc.Line.Suffix[0].Token})
+						return "", false
+					}
+					if strings.HasPrefix(el.SuffixNote, "indirect") {
+						c.Class("comments:kept:note-starts-with-the-word-indirect" + flip)
+					}
+				}
+			}
 		}
 	}
 
